@@ -110,5 +110,28 @@ PROPS["C05"] = {
     "trusted": _CLIENT_TRUSTED, "assumptions": [],
 }
 
+PROPS["C09"] = {
+    "package": "cyc", "exe": "m_client", "harness_args": ["--prop", "C09"],
+    "rule": "for each file kind (2.root.json, timestamp, snapshot, targets, delegated role at depth 1 and 2) the applicable "
+            "limit (the pinned length when the parent pins one, else the configured limit) is set to size-100000, size-1, "
+            "size, size+1, size+100000 (0 when negative); the same with the file replaced by an endless or padded stream; "
+            "chains of 0..max+3 valid newer roots for max_root_updates 0..4; delegation graphs (tree, self, deep self, "
+            "mutual, 3-cycle, diamond, duplicate in one list, sibling back edge, chain of 5, random graphs over <=5 roles); "
+            "legitimate repositories with every file exactly at its bound and delegated roles larger than targets.json. "
+            "Non-trivial: a file within 1 byte of its bound, an oversized stream, a cyclic graph, or chain >= limit.",
+    "explanation": "Theorems (Tough/Props/C09.lean): the limit applied to each metadata file is the configured per-role "
+                   "limit or the length pinned by the trusted parent (a delegated role: its own snapshot entry); a file "
+                   "that is read successfully is not longer than that bound; the number of newer-root requests is at "
+                   "most max_root_updates; the number of delegated-role requests of a cycle is at most the number of "
+                   "role entries of the trusted snapshot, whatever the server answers (self- and mutual delegation "
+                   "included), and the model's recursion fuel is never exhausted. Correspondence: request counts, bytes "
+                   "pulled per request and results of load() vs the model.",
+    "level_text": "Kernel-checked bounds on requests and accepted sizes for every server (the server is an arbitrary "
+                  "function from file names to responses), differential runs against scripted oversized/endless/cyclic servers.",
+    "level_note": "Trusted: as C02. Bytes *pulled* from the transport can exceed the bound by one transport chunk (the size "
+                  "adapter fails on the item that crosses the bound); the stream-level statement is C06's.",
+    "trusted": _CLIENT_TRUSTED, "assumptions": [],
+}
+
 _PENDING = "check under construction in this session (DESIGN.md §10 order of work); not claimed until it runs"
 NOT_APPLICABLE = {f"C{i:02d}": _PENDING for i in range(1, 21)}
